@@ -243,12 +243,15 @@ def streams(ctx):
         ages = sorted(set(x for x in (ri - 1, ri, ri + 1, 0, 600000, DEF_RI + 1) if 0 <= x < 2**62))
         for age in (ages if (tier != "quick" or a in fixed_c[:9]) else [rng.choice(ages)]):
             ans = a if a in ("FAIL", "NONE") else dumps(a)
+            # a slow client: the configuration answer arrives only after 0.5 - 60 s (virtual time); the refresh must still use it
+            late = rng.choice([500, 2500, 10000, 60000]) if rng.chance(1, 3) else None
             L = [vlib.line("l.config", ans), vlib.line("l.start", "T"),
-                 vlib.line("l.cache", "npm", "lodash", "4.17.20", "5.0.0-beta.1"), vlib.line("l.now", str(1000 + age)), vlib.line("l.init", "npm"),
+                 vlib.line("l.cache", "npm", "lodash", "4.17.20", "5.0.0-beta.1"), vlib.line("l.now", str(1000 + age)),
+                 (vlib.line("l.initlate", str(late), "npm") if late else vlib.line("l.init", "npm")),
                  vlib.line("l.parse", "npm", DOCS["npm"][1]), vlib.line("l.open", DOCS["npm"][0], DOCS["npm"][1])]
             s0 = len(ccases)
             for i, l in enumerate(L):
-                ccases.append({"req": l, "tag": (ans, age) if i == 0 else None})
+                ccases.append({"req": l, "tag": (ans, age, late) if i == 0 else None})
             cgroups.append((s0, len(ccases), a, age, ip, ri))
 
     def derive_c(cs, impl):
